@@ -84,6 +84,12 @@ def evaluate(camp):
         if run is not None and getattr(run, 'eval_mode_forwards', 0):
             bad.append(dict(script=lines, kw=kw, violated='networks were switched to eval() mode during fit(): mode-dependent layers make the '
                             'validation evaluation differ from the training evaluation', forwards_in_eval_mode=run.eval_mode_forwards))
+        # "without changing any parameter": a parameter the user froze stays frozen and is moved by nobody
+        for rg, val, want, call, ep in (getattr(run, 'frozen_obs', []) if run is not None else []):
+            if rg or val != want:
+                bad.append(dict(script=lines, kw=kw, violated='a frozen parameter (requires_grad=False) of the networks was un-frozen or moved '
+                                'during fit()', requires_grad=rg, value=val, value_given_by_user=want, call=call, epoch=ep))
+                break
         # routing: what the user's equations received on the last call
         if run is not None and run.eq_calls:
             rec = run.eq_calls[-1]
